@@ -233,6 +233,11 @@ func (s *Super) runBatch(b batch) *Agg {
 				extra = append(extra, Violation{Case: culprit, Sig: "deadlock@" + InnermostRepoFrame(logText), Detail: "watchdog fired and no goroutine was runnable:\n" + firstLines(logText, 60)})
 			} else {
 				inconc["watchdog"]++
+				if inconc["watchdog"] >= 2 {
+					// do not spend the watchdog once per remaining case
+					inconc["not-run-after-two-watchdog-firings-in-the-batch"] += int64(b.to - b.from - len(skip) - 1)
+					break
+				}
 			}
 		} else {
 			class, frame := classifyCrash(logText)
@@ -379,23 +384,7 @@ func classifyCrash(log string) (class, frame string) {
 	return class, InnermostRepoFrame(ex)
 }
 
-func isDeadlock(dump string) bool {
-	sc := bufio.NewScanner(strings.NewReader(dump))
-	sc.Buffer(make([]byte, 1<<20), 1<<20)
-	seen := 0
-	for sc.Scan() {
-		m := goroutineHdr.FindStringSubmatch(sc.Text())
-		if m == nil {
-			continue
-		}
-		seen++
-		st := m[1]
-		if st == "running" || st == "runnable" || st == "syscall" || strings.HasPrefix(st, "sleep") {
-			return false
-		}
-	}
-	return seen > 0
-}
+func isDeadlock(dump string) bool { return IsDeadlockDump(dump) }
 
 // ---- race logs ----
 
